@@ -274,7 +274,7 @@ func checkC09(c *ev.Ctx) {
 	}
 	depth := 4
 	if c.Thorough() {
-		depth = 6
+		depth = 5 // (depth 6 no longer closes within the 3 h budget since the alphabet grew to 40 operations; depth 5 does)
 	}
 	runBFS(c, func(root string) bfs.World { return newC09World(c, root) }, roots, depth, 0)
 }
